@@ -123,6 +123,10 @@ class C12Gen:
                 s2 = pos()
             return ["draw", fam, [loc, s2]]
         if fam == "Uniform":
+            if dep and rng.random() < 0.35:
+                # constant lower bound, state-dependent upper bound
+                a = rng.choice([-1, 0, 0])
+                return ["draw", fam, [num(a), ["add", ["pow", var(rng.choice(self.bounded_pool())), 2], pos()]]]
             if dep:
                 return ["draw", fam, [loc, ["add", loc, pos()]]]
             a = rng.choice([-2, -1, 0, 1])
@@ -526,7 +530,13 @@ class C05Gen(C12Gen):
             else:
                 rhs = num(rng.choice([0, 1, 7, -3, Fraction(1, 2)]))
             init.append(["assign", v, rhs])
-        if rng.random() < 0.15:
+        self.uninitialised = []
+        if rng.random() < 0.12 and (self.smalls or self.reals):
+            # a variable without initial value: its initial value is the symbolic constant <v>0
+            v = rng.choice(self.smalls + self.reals)
+            init = [st for st in init if st[1] != v]
+            self.uninitialised.append(v)
+        elif rng.random() < 0.15:
             # a variable initialised twice: the second assignment is the one that counts
             v = rng.choice(self.all)
             if v in self.flags:
@@ -573,7 +583,7 @@ class C05Gen(C12Gen):
             v = rng.choice(self.flags)
             if self._only_01(v, init, body):
                 types.append([v, "Finite", ["0", "1"]])
-        return {"types": types, "init": init, "guard": guard, "body": body}
+        return {"types": types, "init": init, "guard": guard, "body": body, "uninitialised": list(self.uninitialised)}
 
     def _only_01(self, v, init, body):
         """declare a type only where it is certainly true: every assignment to v is a Bernoulli draw or 0/1 constant"""
